@@ -18,7 +18,7 @@ RULE = (
     "the database cache and the pool: (category, type, unit, composing units/categories, joined exponents, deep "
     "copy of the composing map, caption, IsDerived, repr, hash) equals the tuple recorded at first sight. Per step: "
     "same request twice -> identical object; same resolution -> == and equal hash; different resolution -> !=; "
-    "copy/deepcopy -> identical; pickle -> equal; mutators raise ReadOnlyError/AttributeError. A Scalar / Array / FixedArray built on a pool quantity (constructor and CreateWithQuantity), its CreateCopy, copy and pickle hold a quantity equal to it with the same hash, caption and snapshot. The list form with tuple entries also takes a caption. A refused AddCategory(override=True) between requests changes nothing: the same requests keep returning the very same objects. Non-trivial = sequence "
+    "copy/deepcopy -> identical; pickle -> equal; mutators raise ReadOnlyError/AttributeError. A Scalar / Array / FixedArray built on a pool quantity (constructor and CreateWithQuantity), its CreateCopy, copy and pickle hold a quantity equal to it with the same hash, caption and snapshot. The list form with tuple entries also takes a caption. A refused AddCategory(override=True) between requests changes nothing: the same requests keep returning the very same objects. Histories also build x/y, (1/y)*x, x*(1/y), x*y, y*x from two categories and register every result. Non-trivial = sequence "
     "with a derived/empty/captioned quantity or a failed operation after >= 1 arithmetic step; key = the sequence."
 )
 ASSUMPTIONS = ["callers mutating the map returned by GetCategoryToUnitAndExps() themselves are outside 'public operations'"]
@@ -343,6 +343,18 @@ class Machine:
             if not (b == a and a == b) or hash(a) != hash(b):
                 self.fail("pickle_round_trip_not_equal", "%r -> %r" % (a, b))
             self.add(b, res_key(a))
+        elif kind == "same_strings_other_map":
+            # two quantities that read the same ('length / time', 'm/s') and are composed differently (the factors in
+            # another order): different resolutions, whatever the strings say
+            (u1, c1), (u2, c2) = UNITS[op[1] % len(UNITS)], UNITS[op[2] % len(UNITS)]
+            if c1 == c2:
+                return
+            try:
+                x, y = Scalar(3.0, u1, c1), Scalar(2.0, u2, c2)
+                for q_ in ((x / y).GetQuantity(), ((1.0 / y) * x).GetQuantity(), (x * (1.0 / y)).GetQuantity(), (x * y).GetQuantity(), (y * x).GetQuantity()):
+                    self.add(q_)
+            except (UnitsError, TypeError, ValueError):
+                self.flags.add("failed_op")
         elif kind == "rejected_override":
             # an AddCategory(override=True) that is refused (a default unit of another quantity type) changes nothing: the
             # same requests keep returning the very same objects (same_as_before watches the whole history)
@@ -438,6 +450,8 @@ def op_strategy():
         st.tuples(st.just("mutate"), i),
         st.tuples(st.just("wrap"), i, i, i),
         st.tuples(st.just("rejected_override"), i),
+        st.tuples(st.just("same_strings_other_map"), i, i),
+        st.tuples(st.just("same_strings_other_map"), i, i),
     )
 
 
